@@ -104,7 +104,7 @@ def apply_call(o, c):
     return common.call(getattr(o, n))
 
 
-WS_CHARS = [" ", "\n", "\t", "\r\n", "  "]
+WS_CHARS = [" ", "\n", "\t", "\r\n", "  ", "\u00a0", "\u2003", "\x0c"]
 
 
 def make_object(lc, seq, rng, allow_shuffle=True):
